@@ -21,6 +21,7 @@ META = {
     ),
 }
 META["explanation"] += " C13.R5: payload shapes agree between the handlers that park a message and the views that read it back (list-iterated payloads are stored under a list test; constant keys read by views are produced on every return path of their producers)." + ' C13.R2 also excludes AssertionError from asserts on payload-derived data and IndexError from constant indexes into sequences of unproven length. C13.R4 also: the array-fragment merge requires source and code equality and a time window as conjuncts.'
+META["explanation"] += ' C13.R6: no entity state in class-level containers.'
 
 VIEW_NAMES = ("schema", "params", "status", "traits", "known_list", "_schema_min", "faultlog", "latest_event", "latest_fault", "active_faults")
 
